@@ -122,6 +122,9 @@ func Lib() *ty.Env {
 	uh := add("UH", "", ty.St(f("A", b("int")), f("B", b("string"))), false) // 60
 	e.Decls[uh].Methods = "Ev.Hv"
 	add("HU", "", ty.St(f("P", ty.P(ty.N(60))), f("V", ty.N(60)), f("L", ty.Sl(ty.P(ty.N(60)))), f("M", ty.M(b("string"), ty.P(ty.N(60))))), false) // 61
+	// a holder of pointers to UD (own DeepCopy method, pointer receiver) as a field, as slice and as array elements: the
+	// generator calls the method there, and a nil pointer of the source has to clear what the destination held
+	add("UDH", "", ty.St(f("P", ty.P(ty.N(38))), f("L", ty.Sl(ty.P(ty.N(38)))), f("A", ty.Ar(2, ty.P(ty.N(38)))), f("N", b("int"))), false) // 62
 	return e
 }
 
@@ -292,6 +295,8 @@ func NewCorpusEnv(env *ty.Env, rng *rand.Rand, thorough bool, n2, extra int) *Co
 		ty.M(ty.B("float64"), ty.P(ty.B("string"))), ty.M(ty.B("float32"), ty.M(ty.B("string"), ty.B("int"))),
 		ty.M(ty.B("float64"), ty.Sl(ty.Sl(ty.B("int")))), ty.M(ty.B("complex128"), ty.P(ty.N(6))),
 		ty.Sl(ty.M(ty.N(2), ty.P(ty.B("int")))),
+		// pointers to a struct with its own DeepCopy method: as elements of a top-level slice, of an array, in a holder
+		ty.Sl(ty.P(ty.N(38))), ty.P(ty.Ar(2, ty.P(ty.N(38)))), ty.P(ty.N(62)), ty.Sl(ty.N(62)),
 	} {
 		add(t)
 	}
